@@ -151,7 +151,8 @@ def run_case(c):
 
         def fn(ctx, v=v):
             seen_ctx.append(ctx)
-            return syms[v] if isinstance(v, str) else v
+            # context-dependent: a second site (offset 1) gets another value
+            return syms[v] if isinstance(v, str) else v ^ ctx.offset
         return fn
     args = [mk(a) for a in c["args"]]
     dreg, dalign, dclean, dshadow = DEFAULT[abi_name]
@@ -198,6 +199,34 @@ def run_case(c):
     if len(seen_ctx) != ncallables or any(x is not ictx for x in seen_ctx):
         viol.append({"key": "call:callable-not-given-the-context",
                      "msg": f"{len(seen_ctx)} of {ncallables}"})
+    if ncallables:
+        # the same patch object used at a second site: the callables run
+        # again, with that site's context, and the text is what a patch built
+        # from the values for that site produces
+        ictx2 = InsertionContext(m, None, code, 1, stack_adjustment=adj,
+                                 scratch_registers=alloc.scratch_registers)
+        n0 = len(seen_ctx)
+        try:
+            text2 = patch.get_asm(ictx2)
+            ref_args = [x["int"] if "int" in x else syms[x["sym"]]
+                        if "sym" in x else syms[x["call"]]
+                        if isinstance(x["call"], str) else x["call"] ^ 1
+                        for x in c["args"]]
+            ref = CallPatch(syms[c["callee"]], ref_args, conv,
+                            **kw).get_asm(ictx2)
+        except Exception as e:  # noqa
+            viol.append({"key": "call:second-site-get_asm-raises-"
+                                f"{type(e).__name__}", "msg": repr(e)[:300]})
+        else:
+            ctr["second_site_checks"] = 1
+            if len(seen_ctx) - n0 != ncallables or any(
+                    x is not ictx2 for x in seen_ctx[n0:]):
+                viol.append({
+                    "key": "call:callable-not-given-the-context:second-site",
+                    "msg": f"{len(seen_ctx) - n0} of {ncallables}"})
+            if text2 != ref:
+                viol.append({"key": "call:second-site-text-differs",
+                             "msg": f"{text2}\n---\n{ref}"[:600]})
     a = Assembler(m)
     try:
         for s in pro:
